@@ -18,6 +18,12 @@ A case is dict(names='two'|'three', linked=bool, ops=[...]); an operation is
   ['del', label, spelled_attr]             delattr
   ['new', spelled_class, spelled_attr, v]  m.new(spelled_class, **{spelled_attr: v});  v == '@a1' stands for a1's current id
   ['relate'] / ['unrelate']                relate/unrelate c1 and a1 across R1
+  ['attr+', 'A'|'C', index|None, name, type]   schema edit: MetaClass.append_attribute (index None) / insert_attribute
+  ['attr-', 'A'|'C', name]                 schema edit: MetaClass.delete_attribute (declared spelling)
+A case with empty=True starts without instances (the classes have not been used when the first operation runs).
+After a schema edit the oracle has one more / one less declared attribute; what instances that existed before the edit hold for
+an added attribute is adopted from a read under the declared spelling (the property relates the spellings to each other, it does
+not say what a schema edit does to existing instances); instances made afterwards get the typed default.
 After the last operation everything is observed: reads of every attribute of every instance under every spelling,
 serialization of every instance, where_eq queries under every spelling, class lookup/selection under every spelling.
 Every prefix of a history is a case of its own, so only the last step of a case is judged.
@@ -113,7 +119,7 @@ NAMES = {'two': Names('two', 'Ab', 'Cd', 'id', 'Nm', 'vL', 'Id', 'rf', 'Nm', 'zz
 # the model pair: real metamodel + oracle
 # ----------------------------------------------------------------------------------------------------------------------
 class World(object):
-    def __init__(self, names, linked):
+    def __init__(self, names, linked, empty=False):
         N = self.N = names
         m = self.m = xtuml.MetaModel(xtuml.IntegerGenerator())
         self.mc = {N.A: m.define_class(N.A, list(N.attrs[N.A])), N.C: m.define_class(N.C, list(N.attrs[N.C]))}
@@ -127,6 +133,9 @@ class World(object):
         self.order = []         # labels in creation order
         self.links = set()      # (label of Cd instance, label of Ab instance)
         self.fresh = 0
+        self.attrs = {N.A: list(N.attrs[N.A]), N.C: list(N.attrs[N.C])}     # the oracle's record of the declared attributes
+        if empty:
+            return
         self._add('a1', N.A, m.new(N.A, 11, 'n0', 7), {N.a_id: 11, N.a_nm: 'n0', N.a_vl: 7})
         self._add('c1', N.C, m.new(N.C, 21), {N.c_id: 21, N.c_nm: ''})
         if linked:
@@ -142,6 +151,12 @@ class World(object):
             if i is inst:
                 return l
         return '<unknown instance %r>' % (inst,)
+
+    def canon_attr(self, cls, spelled):
+        for n, _ in self.attrs[cls]:
+            if n.upper() == spelled.upper():
+                return n
+        return None
 
     # -- oracle reads ---------------------------------------------------------------------------------------------------
     def expected(self, label, attr):
@@ -207,8 +222,10 @@ def apply_op(w, op):
     kind = op[0]
     if kind == 'set':
         _, label, spelled, value = op
+        if label not in w.inst:
+            raise Skip()
         cls = w.cls[label]
-        attr = N.canon_attr(cls, spelled)
+        attr = w.canon_attr(cls, spelled)
         inst = w.inst[label]
         if attr is None:
             raise Skip()
@@ -233,8 +250,10 @@ def apply_op(w, op):
         return ('set', label, attr)
     if kind == 'del':
         _, label, spelled = op
+        if label not in w.inst:
+            raise Skip()
         cls = w.cls[label]
-        attr = N.canon_attr(cls, spelled)
+        attr = w.canon_attr(cls, spelled)
         inst = w.inst[label]
         stored = attr is not None and not N.is_ref(cls, attr) and attr in w.val[label]
         try:
@@ -250,9 +269,11 @@ def apply_op(w, op):
     if kind == 'new':
         _, spelled_class, spelled_attr, value = op
         cls = N.canon_class(spelled_class)
-        attr = N.canon_attr(cls, spelled_attr)
+        attr = w.canon_attr(cls, spelled_attr)
+        if attr is None:
+            raise Skip()
         if value == '@a1':
-            if N.a_id not in w.val['a1']:
+            if 'a1' not in w.val or N.a_id not in w.val['a1']:
                 raise Skip()
             value = w.val['a1'][N.a_id]
         try:
@@ -264,7 +285,7 @@ def apply_op(w, op):
         w.fresh += 1
         label = 'n%d' % w.fresh
         values = {}
-        for n, ty in N.attrs[cls]:
+        for n, ty in w.attrs[cls]:
             if N.is_ref(cls, n):
                 continue
             if ty == 'string':
@@ -284,14 +305,43 @@ def apply_op(w, op):
             if values[n] is None:
                 values[n] = read(inst, n)       # read under the declared spelling
         return ('new', label, attr)
+    if kind in ('attr+', 'attr-'):
+        cls = N.A if op[1] == 'A' else N.C
+        mc = w.mc[cls]
+        if kind == 'attr+':
+            _, _, index, name, ty = op
+            if w.canon_attr(cls, name) is not None:
+                raise Skip()        # two attributes whose names differ in case at most: not in the space
+            if index is None:
+                mc.append_attribute(name, ty)
+                w.attrs[cls].append((name, ty))
+            else:
+                mc.insert_attribute(index, name, ty)
+                w.attrs[cls].insert(index, (name, ty))
+            for l in w.order:
+                if w.cls[l] == cls:
+                    w.val[l].pop(name, None)
+                    v = read(w.inst[l], name)       # adopted: read under the declared spelling
+                    if v is not MISSING:
+                        w.val[l][name] = v
+            return ('attr+', None, name)
+        name = op[2]
+        if N.is_ref(cls, name) or name in (N.a_id, N.c_id) or w.canon_attr(cls, name) != name:
+            raise Skip()
+        mc.delete_attribute(name)
+        w.attrs[cls] = [(n, t) for (n, t) in w.attrs[cls] if n != name]
+        for l in w.order:
+            if w.cls[l] == cls:
+                w.val[l].pop(name, None)        # no longer a declared attribute: not judged any more
+        return ('attr-', None, name)
     if kind == 'relate':
-        if ('c1', 'a1') in w.links:
+        if ('c1', 'a1') in w.links or 'c1' not in w.inst:
             raise Skip()
         xtuml.relate(w.inst['c1'], w.inst['a1'], 'R1')
         w.links.add(('c1', 'a1'))
         return ('relate', 'c1', N.c_rf)
     if kind == 'unrelate':
-        if ('c1', 'a1') not in w.links:
+        if ('c1', 'a1') not in w.links or 'c1' not in w.inst:
             raise Skip()
         xtuml.unrelate(w.inst['c1'], w.inst['a1'], 'R1')
         w.links.discard(('c1', 'a1'))
@@ -344,6 +394,8 @@ def _read_clause(tag, label, attr):
         return 'delattr-removes-value' if (label == tl and attr == ta) else 'delattr-only-named'
     if kind == 'new':
         return 'ctor-keyword-spelling'
+    if kind in ('attr+', 'attr-'):
+        return 'read-every-spelling:after-schema-edit'
     return 'referential-read-spelling'
 
 
@@ -351,13 +403,13 @@ def observe(w, tag, class_spellings='rotate', full=True):
     """Judges the state against the oracle.  full: everything; otherwise reads of everything, and serialization, class
     selection and equality filters for what the operation `tag` touched (the rest was judged by the shorter cases)."""
     N = w.N
-    if tag is None:
+    if tag is None or tag[0] in ('attr+', 'attr-'):
         full = True
     kind, tl, ta = tag if tag is not None else (None, None, None)
     # 1. reads under every spelling
     for label in w.order:
         inst, cls = w.inst[label], w.cls[label]
-        for attr, ty in N.attrs[cls]:
+        for attr, ty in w.attrs[cls]:
             known, want = w.expected(label, attr)
             if not known:
                 continue
@@ -376,7 +428,7 @@ def observe(w, tag, class_spellings='rotate', full=True):
             continue
         inst, cls = w.inst[label], w.cls[label]
         wants = []
-        for attr, ty in N.attrs[cls]:
+        for attr, ty in w.attrs[cls]:
             known, want = w.expected(label, attr)
             if not known or want is MISSING:
                 wants = None
@@ -416,7 +468,7 @@ def observe(w, tag, class_spellings='rotate', full=True):
     # 4. equality filters under every spelling see the stored value
     for cls in (N.A, N.C):
         csp = spellings(cls)
-        for ai, (attr, ty) in enumerate(N.attrs[cls]):
+        for ai, (attr, ty) in enumerate(w.attrs[cls]):
             if not full:
                 # the class of the touched instance; the referential attribute follows the identifying attribute it refers to
                 if not (w.cls[tl] == cls or (w.cls[tl] == N.A and N.is_ref(cls, attr))):
@@ -473,7 +525,7 @@ def _run_case(case, check_every_step=False, class_spellings='rotate'):
     n = len(ops)
     _PROGRESS[0] = -1
     try:
-        w = World(N, case.get('linked', False))
+        w = World(N, case.get('linked', False), case.get('empty', False))
         if n == 0 or check_every_step:
             observe(w, None, class_spellings)
     except Failure as f:
@@ -608,8 +660,7 @@ def _enumerate(ctx, plans, class_spellings='rotate'):
     return True
 
 
-@item('attr-histories',
-      stands_in_for=['xtuml.meta.Class.__getattr__', 'xtuml.meta.Class.__setattr__', 'xtuml.meta.Class.__delattr__',
+_ATTR_HISTORIES = dict(stands_in_for=['xtuml.meta.Class.__getattr__', 'xtuml.meta.Class.__setattr__', 'xtuml.meta.Class.__delattr__',
                      'xtuml.meta.MetaClass.new', 'xtuml.meta.WhereEqual.__call__', 'xtuml.persist.serialize_instance',
                      'xtuml.meta.MetaModel.find_metaclass', 'xtuml.meta.MetaModel.select_many'],
       bound='for each of a plain, an identifying and a referential attribute with a 2-letter name (referential: linked and unlinked start): '
@@ -618,7 +669,11 @@ def _enumerate(ctx, plans, class_spellings='rotate'):
             'thorough additionally length 5 over the smaller alphabets for the plain and the identifying attribute; after the last operation: reads of every attribute of every instance under '
             'all 4 spellings, serialization of every instance, where_eq (keyword and dict form) and select_any under all attribute spellings, '
             'class lookup and selection under all class-name spellings',
-      shards=16, weight=4)
+      weight=4)
+
+
+@item('attr-histories', shards=7, tiers=('quick',), **_ATTR_HISTORIES)
+@item('attr-histories', shards=9, tiers=('thorough',), **_ATTR_HISTORIES)
 def attr_histories(ctx):
     N = NAMES['two']
     plans = []
@@ -638,6 +693,67 @@ def attr_histories(ctx):
             ctx.note('a write to a referential attribute under its declared spelling is accepted by this tree; such writes are left out of the histories')
         ctx.note('not checked (not stated by the property): which exception a delete raises when no value is stored under the name; '
                  'define_class with a name differing only in case from an existing class; case of association ids')
+
+
+# ----------------------------------------------------------------------------------------------------------------------
+# histories that edit the schema while attributes are written, read, deleted and queried
+# ----------------------------------------------------------------------------------------------------------------------
+def _schema_alphabet(N, target, added):
+    """Operations around an attribute `added` that schema edits add to (and remove from) a class, next to an attribute the class
+    had from the start.  target 'used': class Ab, its instance a1 exists; 'fresh': class Ab, no instance exists at the start
+    (n1 is the first one made); 'ref-class': class Cd (it has a referential attribute), its instance c1 exists."""
+    sps = spellings(added)
+    if target == 'ref-class':
+        tag, cls, label, old = 'C', N.C, 'c1', N.c_nm
+    else:
+        tag, cls, label, old = 'A', N.A, ('a1' if target == 'used' else 'n1'), N.a_nm
+    osp = spellings(old)
+    csp = spellings(cls)
+    ops = [['attr+', tag, None, added, 'string'],       # appended
+           ['attr+', tag, 0, added, 'string'],          # in front
+           ['attr+', tag, 1, added, 'string'],          # in the middle
+           ['attr-', tag, added]]
+    if target != 'ref-class':
+        ops.append(['attr+', tag, 3, added, 'string'])  # insert at the end
+        ops.append(['attr-', tag, old])                 # an attribute in front of it goes
+    for i, sp in enumerate(sps):
+        ops.append(['set', label, sp, 'w%d' % i])
+    ops.append(['del', label, sps[0]])
+    ops.append(['del', label, sps[-1]])
+    ops.append(['new', csp[-1], sps[1], 'k1'])
+    ops.append(['new', csp[1], sps[2], 'k2'])
+    ops.append(['set', label, osp[2], 'p0'])
+    if target == 'fresh':
+        ops.append(['new', csp[2], osp[1], 'q0'])
+    else:
+        ops.append(['del', label, osp[1]])
+    return ops
+
+
+_SCHEMA_HISTORIES = dict(stands_in_for=['xtuml.meta.Class.__getattr__', 'xtuml.meta.Class.__setattr__', 'xtuml.meta.Class.__delattr__', 'xtuml.meta.MetaClass.new',
+                     'xtuml.meta.MetaClass.append_attribute', 'xtuml.meta.MetaClass.insert_attribute', 'xtuml.meta.MetaClass.delete_attribute',
+                     'xtuml.meta.WhereEqual.__call__', 'xtuml.persist.serialize_instance'],
+      bound='every history of length<=4 (thorough: <=5 for the class with instances) over: a 2-letter string attribute appended / inserted in front / in the middle / at the end, '
+            'deleted again, another attribute of the class deleted; the added attribute written under all 4 spellings, deleted under 2, given as '
+            'constructor keyword under 2 (class name in another spelling); an original attribute written / deleted / given as keyword in another spelling (14-16 operations); '
+            'on class Ab with its instance in use before the first edit, on class Ab with no instance made before the first operation, on class Cd (referential attribute, linked instance); '
+            'after the last operation: reads of every declared attribute of every instance under all spellings, serialization, where_eq and '
+            'select_any under all spellings, class lookup under all spellings',
+      weight=3)
+
+
+@item('schema-histories', shards=5, tiers=('quick',), **_SCHEMA_HISTORIES)
+@item('schema-histories', shards=4, tiers=('thorough',), **_SCHEMA_HISTORIES)
+def schema_histories(ctx):
+    N = NAMES['two']
+    plans = [(dict(names='two', linked=False), _schema_alphabet(N, 'used', 'Xy'), 4 if ctx.quick else 5),
+             (dict(names='two', linked=False, empty=True), _schema_alphabet(N, 'fresh', 'Xy'), 4),
+             (dict(names='two', linked=True), _schema_alphabet(N, 'ref-class', 'Xy'), 4)]
+    if _enumerate(ctx, plans):
+        ctx.exhausted = True
+    if ctx.shard == 0:
+        ctx.note('not checked (not stated by the property): what a schema edit does to the values of instances that existed before it (adopted from a read '
+                 'under the declared spelling); attributes whose names differ only in letter case; delete_attribute under another spelling')
 
 
 # ----------------------------------------------------------------------------------------------------------------------
@@ -696,14 +812,31 @@ def class_names(ctx):
 # ----------------------------------------------------------------------------------------------------------------------
 def _random_op(rng, N, k):
     r = rng.random()
-    if r < 0.45:
+    if r < 0.10:
+        # schema edits: two more attributes come and go on either class, an original plain attribute may go and come back
+        tag = rng.choice('AC')
+        plain = N.a_nm if tag == 'A' else N.c_nm
+        name = rng.choice(['xYz', 'Qrs', plain])
+        if rng.random() < 0.4:
+            return ['attr-', tag, name]
+        return ['attr+', tag, rng.choice([None, 0, 1, 2, 3]), name, 'string']
+    if r < 0.20:
+        # the attributes that schema edits add, under any spelling
+        label = rng.choice(['a1', 'c1'])
+        sp = rng.choice(spellings(rng.choice(['xYz', 'Qrs'])))
+        if rng.random() < 0.7:
+            return ['set', label, sp, 'x%d' % k]
+        if rng.random() < 0.5:
+            return ['del', label, sp]
+        return ['new', rng.choice(spellings(N.A if label == 'a1' else N.C)), sp, 'y%d' % k]
+    if r < 0.50:
         label = rng.choice(['a1', 'a1', 'c1'])
         cls = N.A if label == 'a1' else N.C
         attr, ty = rng.choice(N.attrs[cls])
         sp = rng.choice(spellings(attr))
         v = ('s%d' % k) if ty == 'string' else 1000 + k
         return ['set', label, sp, v]
-    if r < 0.60:
+    if r < 0.62:
         label = rng.choice(['a1', 'c1'])
         cls = N.A if label == 'a1' else N.C
         attr = rng.choice([a for a, _ in N.attrs[cls]] + [N.unknown])
@@ -724,7 +857,7 @@ def _run_long(case):
     N = NAMES[case['names']]
     done = []
     try:
-        w = World(N, case['linked'])
+        w = World(N, case['linked'], case.get('empty', False))
         observe(w, None)
     except Failure as f:
         return f, done
@@ -767,13 +900,18 @@ def _shrink(case, clause, seconds=6.0):
     return dict(case, ops=ops)
 
 
-@item('random-long', stands_in_for=['xtuml.meta.Class.__getattr__', 'xtuml.meta.Class.__setattr__', 'xtuml.meta.Class.__delattr__', 'xtuml.meta.MetaClass.new'],
+_RANDOM_LONG = dict(stands_in_for=['xtuml.meta.Class.__getattr__', 'xtuml.meta.Class.__setattr__', 'xtuml.meta.Class.__delattr__', 'xtuml.meta.MetaClass.new'],
       bound='random histories of 40 operations over both instances, all six attributes (3-letter names, 8 spellings each), constructor keywords, '
-            'relate/unrelate; everything observed after every step; quick 40 histories per shard, thorough until the time share ends (<= 4000 per shard)',
-      shards=16, weight=1)
+            'relate/unrelate, 10% schema edits (two more attributes come and go at several positions on either class, an original attribute goes and comes back) and 10% '
+            'writes/deletes/keywords of the added attributes; everything observed after every step; quick 100 histories per shard, thorough until the time share ends (<= 4000 per shard)',
+      weight=1)
+
+
+@item('random-long', shards=3, tiers=('quick',), **_RANDOM_LONG)
+@item('random-long', shards=2, tiers=('thorough',), **_RANDOM_LONG)
 def random_long(ctx):
     N = NAMES['three']
-    n = 40 if ctx.quick else 4000
+    n = 100 if ctx.quick else 4000
     done = failures = 0
     for k in range(n):
         if ctx.expired():
